@@ -134,10 +134,10 @@ PROPS = {
         "lean": ["C12"],
         "test_drivers": {"terwayplugin.test": "./plugin/terway/"},
         "required": ["C12.c12_crd_result_describes_owner", "C12.c12_one_default", "C12.c12_rejects", "C12.c12_gateway_v4", "C12.c12_gateway_in_subnet", "C12.c12_gateway_ne_pod",
-                     "C12.c12_datapath_table", "C12.c12_datapath_solely", "C12.c12_roundtrip"],
+                     "C12.c12_datapath_table", "C12.c12_datapath_solely", "C12.c12_roundtrip", "C12.c12_startup_result_has_gateway"],
         "rule": "(1) interface lists of 0-5 entries (names '', eth0, eth1, net1, eth2; default flags) through the real defaultForNetConf; (2) PodENI allocation sets of 0-4 allocations (IPv4 / IPv6 / dual, subnets /16../32 and /112../128, "
                 "empty and unparsable CIDRs, trunk with known/missing VLAN ids, extra routes of both families) through the real RemoteIPResource.ToRPC; (3) every configuration so produced is fed to the plugin's real parseSetupConf "
-                "(tagged test driver of plugin/terway, random IP type, VLAN mode, pod limits, runtime bandwidth overrides) and the whole reply to defaultForNetConf; (4) the complete getDatePath table (vlan_strip_type filter / vlan / absent / other); (5) 300 / 5000 CRD-mode results: node IPAM records with 1-5 interfaces, each in its own vSwitch, one of them holding the pod's valid address(es), through the real CRDV2.Allocate and LocalIPResource.ToRPC over a fake API server - the reported interface is compared with the model, monitors on the NetConf: address inside the reported subnet, that subnet's reserved gateway, MAC of the reported interface. "
+                "(tagged test driver of plugin/terway, random IP type, VLAN mode, pod limits, runtime bandwidth overrides) and the whole reply to defaultForNetConf; (4) the complete getDatePath table (vlan_strip_type filter / vlan / absent / other); (6) 60 / 600 ops nc.meta: an interface the daemon finds attached at start-up as the instance metadata describes it (the real pkg/aliyun/eni GetENIByMac over the harness's loopback metadata server; IPv6 node or not; subnets 10.k.0.0/24 and fd00:k::/64), a local result served from it through LocalIPResource.ToRPC - gateway and subnet of each family compared with Model/NetConf.lean metaNetConf, monitor C12/local/startup-eni-subnet-gateway; (5) 300 / 5000 CRD-mode results: node IPAM records with 1-5 interfaces, each in its own vSwitch, one of them holding the pod's valid address(es), through the real CRDV2.Allocate and LocalIPResource.ToRPC over a fake API server - the reported interface is compared with the model, monitors on the NetConf: address inside the reported subnet, that subnet's reserved gateway, MAC of the reported interface. "
                 "non-trivial = allocation set that yields a configuration / accepted parse / list with >= 2 interfaces; distinct = distinct op line.",
         "technique": "Lean 4 theorems over models of defaultForNetConf, RemoteIPResource.ToRPC, parseSetupConf and getDatePath (gateway facts reuse the C14 theorems); differential correspondence incl. an out-of-process plugin driver",
         "level_text": "Theorems for all interface lists, all allocation results and all plugin settings of the model: exactly one default route and the primary interface or rejection; PodENI configurations carry the subnet's third-from-last gateway, "
